@@ -22,7 +22,7 @@ echo "--- full suite on changed tree (must pass)"
 go test -vet=off -count=1 ./... 2>&1 | grep -v "no test files" | tail -6; r2=${PIPESTATUS[0]}
 echo "--- static checks on changed tree"
 for p in $prop ${ALSO:-}; do
-  /verif/bin/samlverif -repo $wt -prop $p -noevidence 2>&1 | grep "^VIOLATED\|^UNDECIDED\|^==" | cut -c1-300
+  ${BIN:-/verif/bin/samlverif} -repo $wt -prop $p -noevidence 2>&1 | grep "^VIOLATED\|^UNDECIDED\|^==" | cut -c1-300
 done
 echo "RESULT demo_unchanged=$r0 demo_changed=$r1 suite_changed=$r2"
 mkdir -p /verif/seeded/$id
